@@ -343,9 +343,18 @@ func c10Mutant(t *fw.T) {
 			mut[i].Pre = " " // keep the two values apart
 		}
 	case 3:
-		mut = append(mut[:i:i], mut[i+1:]...)
-		if mut[i].Pre == "" {
-			mut[i].Pre = " "
+		if r.Intn(3) == 0 {
+			// the document stops behind the key (optionally followed by whitespace): the colon is missing all the same
+			mut = mut[:i:i]
+			if r.Intn(2) == 0 {
+				mut = append(mut, gen.JSONTok{Kind: ' ', Text: "", Pre: gen.Pick(r, []string{" ", "\n", " \t"})})
+			}
+			t.Count("mutant.missing-colon.at-end", 1)
+		} else {
+			mut = append(mut[:i:i], mut[i+1:]...)
+			if mut[i].Pre == "" {
+				mut[i].Pre = " "
+			}
 		}
 		offIdx = i - 1 // the key itself must not be delivered
 	case 4:
